@@ -565,25 +565,13 @@ fn check_type_relation<T: TypeLookup>(
                 type_stack.push(pattern_id);
             }
 
-            // Parameters are contravariant, results are covariant, receive is contravariant
-            let result =
-                check_type_relation(*param2, *param1, lookup, mode, assumptions, type_stack)
-                    && check_type_relation(
-                        *result1,
-                        *result2,
-                        lookup,
-                        mode,
-                        assumptions,
-                        type_stack,
-                    )
-                    && check_type_relation(
-                        *receive2,
-                        *receive1,
-                        lookup,
-                        mode,
-                        assumptions,
-                        type_stack,
-                    );
+            // Parameters are contravariant, results are covariant, receive is contravariant.
+            // For overlap (ANY) the parameter types need not overlap: a function accepting
+            // both parameter types is assignable to both function types.
+            let result = (mode == UnionMode::Any
+                || check_type_relation(*param2, *param1, lookup, mode, assumptions, type_stack))
+                && check_type_relation(*result1, *result2, lookup, mode, assumptions, type_stack)
+                && check_type_relation(*receive2, *receive1, lookup, mode, assumptions, type_stack);
 
             if !already_on_stack {
                 type_stack.pop();
